@@ -8,6 +8,7 @@ import (
 	"strings"
 	"sync"
 	"sync/atomic"
+	"syscall"
 	"testing"
 	"time"
 
@@ -246,6 +247,11 @@ func runTCPClient(phases []phase) error {
 	n := &gomavlib.Node{Endpoints: []gomavlib.EndpointConf{gomavlib.EndpointTCPClient{Address: sim.Addr(port)}},
 		Dialect: ardupilotmega.Dialect, OutVersion: gomavlib.V2, OutSystemID: 9, HeartbeatDisable: true,
 		IdleTimeout: c14Idle, ReadTimeout: 500 * time.Millisecond}
+	if len(phases)%2 == 1 {
+		// a connect timeout shorter than the longer outages: every attempt has its own time budget, however
+		// long the run of failed attempts has lasted
+		n.ReadTimeout = 120 * time.Millisecond
+	}
 	if err := initNode(&n); err != nil {
 		return fmt.Errorf("BROKEN: %v", err)
 	}
@@ -401,6 +407,58 @@ func runUDPClient(phases []phase) error {
 		pc, err := net.ListenPacket("udp4", sim.Addr(port))
 		if err != nil {
 			return fmt.Errorf("BROKEN: listen udp: %v", err)
+		}
+		if ph.kind == "answer-then-vanish" {
+			// the peer answers a few datagrams, then its socket disappears: from then on every heartbeat of the
+			// node bounces (ICMP), which the client's read side sees as "connection refused" - that is the cause
+			// the close event has to carry, and a fresh channel follows
+			buf := make([]byte, 2048)
+			answered := 0
+			deadline := time.Now().Add(bound)
+			for answered < 4 && time.Now().Before(deadline) {
+				pc.SetReadDeadline(time.Now().Add(c14Idle / 4)) //nolint:errcheck
+				if _, addr, rerr := pc.ReadFrom(buf); rerr == nil {
+					pc.WriteTo(tagged(1, pi, "debug", true, nil, 0).Bytes(), addr) //nolint:errcheck
+					answered++
+				}
+			}
+			if answered < 4 {
+				pc.Close()
+				return fmt.Errorf("phase %d: the UDP client sent nothing for %v (no channel open?) events:%s", pi, bound, renderLife(lifecycle(rec.Snapshot())))
+			}
+			closesNow := 0
+			for _, e := range lifecycle(rec.Snapshot()) {
+				if !e.open {
+					closesNow++
+				}
+			}
+			vanishedAt := time.Now()
+			pc.Close()
+			if !rec.WaitFor(bound, func(recs []sim.Rec) bool {
+				c := 0
+				for _, e := range lifecycle(recs) {
+					if !e.open {
+						c++
+					}
+				}
+				return c > closesNow
+			}) {
+				return fmt.Errorf("phase %d: the peer's socket vanished (every heartbeat is refused) but no close event within %v", pi, bound)
+			}
+			c := 0
+			for _, e := range lifecycle(rec.Snapshot()) {
+				if e.open {
+					continue
+				}
+				c++
+				if c == closesNow+1 {
+					refused := e.err != nil && (errors.Is(e.err, syscall.ECONNREFUSED) || strings.Contains(e.err.Error(), "refused"))
+					if !refused && !(isTimeout(e.err) && stalls.StalledBetween(vanishedAt, e.t)) {
+						return fmt.Errorf("phase %d: the peer's socket vanished and the node's datagrams were refused, but the close event (%v later) says: %v (want the cause: connection refused)", pi, e.t.Sub(vanishedAt), e.err)
+					}
+				}
+			}
+			continue
 		}
 		// answer every datagram for a while: the channel that is open now must survive 4 idle timeouts
 		closesBefore := 0
@@ -649,7 +707,7 @@ func init() {
 
 func TestC14Clients(t *testing.T) {
 	rec := evid.New(t, "C14", "client-type endpoints under generated fault sequences: TCP client against a harness server that is down for a while (failed connection attempts), accepts and then ends the connection by EOF, reset or silence (idle timeout); serial endpoint (hooked opener) whose open fails several times and whose reads fail with an injected error; oracles: strictly alternating open/close events (never two channels at once), every close event carries an error matching the injected cause, a fresh channel opens after every close but not earlier than the reconnect delay, connections seen by the peer == open events; non-trivial = >=2 consecutive failures including a failed connect; distinct by hash of the phases")
-	rec.Require("tcp-client", "serial", "udp-client", "failed-connect-then-failure", "idle-expiry", "reset", "consumer-stalled-across-close", "write-failure-before-read-fault", "fault-after-long-lived-channel", "read-fault-while-writer-blocked")
+	rec.Require("tcp-client", "serial", "udp-client", "failed-connect-then-failure", "idle-expiry", "reset", "consumer-stalled-across-close", "write-failure-before-read-fault", "fault-after-long-lived-channel", "read-fault-while-writer-blocked", "udp-peer-vanishes", "outage-longer-than-connect-timeout")
 	evid.Check(t, rec, evid.N(12, 60), func(t *rapid.T) {
 		drawNodeInit(t)
 		// several independent sub-scenarios run concurrently to use the waiting time
@@ -662,7 +720,7 @@ func TestC14Clients(t *testing.T) {
 		subs := []*sub{
 			{kind: "tcp-client", phases: drawAllPhases(t, []string{"eof", "reset", "idle", "eof-longlived"})},
 			{kind: "serial", phases: drawAllPhases(t, []string{"readerr", "readerr-stalled", "writefail-then-readerr", "longlived-readerr", "blockedwrite-readerr"})},
-			{kind: "udp-client", phases: drawAllPhases(t, []string{"answer-then-silent"})},
+			{kind: "udp-client", phases: drawAllPhases(t, []string{"answer-then-silent", "answer-then-vanish"})},
 		}
 		if rapid.Bool().Draw(t, "extra_tcp") {
 			subs = append(subs, &sub{kind: "tcp-client", phases: drawPhases(t, []string{"down", "eof", "eof", "reset", "idle", "eof-longlived"})})
@@ -704,6 +762,12 @@ func TestC14Clients(t *testing.T) {
 				}
 				if p.kind == "reset" {
 					cls = append(cls, "reset")
+				}
+				if p.kind == "answer-then-vanish" {
+					cls = append(cls, "udp-peer-vanishes")
+				}
+				if s.kind == "tcp-client" && len(s.phases)%2 == 1 && p.kind == "down" && p.down > 130*time.Millisecond {
+					cls = append(cls, "outage-longer-than-connect-timeout")
 				}
 				if p.kind == "readerr-stalled" {
 					cls = append(cls, "consumer-stalled-across-close")
